@@ -118,7 +118,7 @@ func (g *c12gen) mkVAA(s c12stream, seq uint64) *vaa.VAA {
 	v.Nonce = r.Uint32()
 	v.ConsistencyLevel = uint8(r.Intn(256))
 	plen := 1 + r.Intn(24)
-	if r.Intn(60) == 0 {
+	if r.Intn(200) == 0 {
 		plen = 0
 	}
 	v.Payload = g.bytesN(plen)
@@ -548,9 +548,9 @@ func TestVerifDb(t *testing.T) {
 	defer d.Close()
 	g := &c12gen{r: rand.New(rand.NewSource(seed)), w: w, d: d, dist: map[string]int{}}
 
-	nmix, nbig, nraw := 40, 3, 16
+	nmix, nbig, nraw := 100, 4, 24
 	if tier == "thorough" {
-		nmix, nbig, nraw = 600, 30, 120
+		nmix, nbig, nraw = 2000, 100, 300
 	}
 
 	// key functions on a grid of boundary identifiers
